@@ -258,7 +258,7 @@ func srcs(ps []*pat.Pattern) []string {
 }
 
 var stats = rig.NewStats("C02",
-	"rapid draws an add-only table of 1-14 well-formed patterns (shared prefixes, bursts of >=5 literal siblings, competing parameter kinds, token-prefix names), two registration orders, in a third of the cases interleaved with registrations that must be refused for their method list or as duplicates (and must leave no trace in resolution), and 1-6 paths derived from the patterns (values from the literal and value alphabets, one-byte mutations); every answer must lie in the admissible set of the tree-free reference resolver, 404 iff that set is empty. Non-trivial: the reference took at least one decision on some path (a literal branch failed and fell back, >=2 sibling groups of one kind, or a kind failed before a lower one was tried); distinct by hash of the case",
+	"rapid draws an add-only table of 1-14 well-formed patterns (shared prefixes, bursts of >=5 literal siblings, competing parameter kinds, token-prefix names), two registration orders, in a third of the cases interleaved with registrations that must be refused for their method list or as duplicates (and must leave no trace in resolution), and 1-6 paths derived from the patterns (values from the literal and value alphabets, one-byte mutations); every answer must lie in the admissible set of the tree-free reference resolver, 404 iff that set is empty. Non-trivial: the reference took at least one decision on some path (a literal branch failed and fell back, >=2 sibling groups of one kind, or a kind failed before a lower one was tried); distinct by hash of the case. Later additions to the generated domain: A third of the tables interleave registrations that must be refused (reserved / unknown / repeated method, duplicate) at drawn positions of either order - they must leave no trace in resolution; one pool in twelve holds a structure of unusual size (11-45 children below the root, a prefix or a parameter that has a rival of another kind; dozens of regexp siblings; 9-34-parameter routes). Values and literal text include the odd-text alphabet described for C01 (case-mapping outliers, invalid UTF-8, line breaks, '%').",
 	"regexp rules are one character class under a quantifier (no braces, alternations or lazy quantifiers)",
 	"where greedy and shortest regexp captures differ both are admissible (the statement says shortest, Go regexps are leftmost-first)")
 
